@@ -3,7 +3,7 @@
  *   pdsh [-S] [-k] -R exec -w h[0-n] exit_helper %n SPEC0 SPEC1 ...
  *
  * exec replaces %n by the rank; the helper acts out SPEC<rank>:
- *   SPEC = o<hex>:<end>     write the bytes <hex> ("-" = nothing) to stdout, then
+ *   SPEC = o<hex>:<end>     write the bytes <hex> ("-" = nothing; L<n> = one line of <n> characters) to stdout, then
  *   <end> = e<code>         exit with <code>
  *           s<sig>          kill itself with signal <sig> (core dumps disabled)
  *           t<secs>         sleep <secs> (to be timed out by -u), then exit 0
@@ -83,7 +83,18 @@ int main(int argc, char **argv)
         while (nanosleep(&ts, &ts) < 0)
             ;
     }
-    if (spec[1] != '-') {
+    if (spec[1] == 'L') {           /* oL<n>: one line of <n> characters */
+        long n = atol(spec + 2), i;
+        static char blk[4096];
+        memset(blk, 'x', sizeof blk);
+        for (i = 0; i < n; i += (long) sizeof blk) {
+            size_t m = (size_t) (n - i < (long) sizeof blk ? n - i : (long) sizeof blk);
+            if (write(1, blk, m) != (ssize_t) m)
+                return 203;
+        }
+        if (write(1, "\n", 1) != 1)
+            return 203;
+    } else if (spec[1] != '-') {
         char *p;
         for (p = spec + 1; p + 1 < end + 1 && p < end; p += 2) {
             unsigned char b = (unsigned char) (hexval(p[0]) * 16 + hexval(p[1]));
